@@ -1,6 +1,6 @@
 (* C04 — paths and accessors address exactly the leaves. *)
-From OptreeModel Require Import Base Tree Flatten Unflatten Spec Accessor PathsArr.
-From OptreeProofs Require Import TraversalProofs AccessorProofs PathsFree UpToPaths PrefixArrProofs PathsArrProofs.
+From OptreeModel Require Import Base Tree Flatten Unflatten Spec Accessor PathsArr AccArr.
+From OptreeProofs Require Import TraversalProofs AccessorProofs PathsFree UpToPaths PrefixArrProofs PathsArrProofs AccArrProofs.
 
 (* For every tree whose custom nodes declare pairwise distinct entries, every configuration: the
    i-th path, applied to the tree entry by entry (sequence index, dict key, namedtuple /
@@ -76,3 +76,18 @@ Theorem C04_treespec_paths_count :
   length (st_paths t) = st_leaves t.
 Proof. exact st_paths_count. Qed.
 Print Assumptions C04_treespec_paths_count.
+
+(* the same for PyTreeSpec::Accessors: the walk that wraps every entry by the node's path entry type,
+   node type and kind returns exactly the tree-level typed paths *)
+Theorem C04_cpp_accessors_walk :
+  forall c o ls sp s,
+    wf_obj o = true -> flatten c o = Ok (ls, sp) -> sspec_of sp = Some s ->
+    arr_accessors sp = Ok (st_accessors (stree_of s)).
+Proof. exact arr_accessors_of_flattened. Qed.
+Print Assumptions C04_cpp_accessors_walk.
+
+Theorem C04_treespec_accessors_count :
+  forall t, wf_stree t = true -> JoinOrder.good t = true -> entries_wf t = true -> dok t = true ->
+  length (st_accessors t) = st_leaves t.
+Proof. exact st_accessors_count. Qed.
+Print Assumptions C04_treespec_accessors_count.
